@@ -84,3 +84,24 @@ CHECKS["C02"] = {
                   "altered, random and dishonest-prover inputs (digit 2, value-promise = 2^n, value < promise, radix 3).",
     "level_note": "Exploration by sampling; a wrong coefficient agrees with the reference at a random point with probability < 2^-230. Trusted: refbp (written from the paper), dalek, merlin.",
 }
+
+CHECKS["C03"] = {
+    "title": "Batch verification accepts iff every member verifies",
+    "level": "exploration",
+    "technique": "runtime monitoring: differential oracle batch verdict vs conjunction of singleton verdicts (library and reference), result-alignment monitor, refusal cases; batches up to 1300 members",
+    "design_ref": "DESIGN.md section 4 C03",
+    "legs": [{"name": "fm", "shards": 16}, {"name": "ris", "shards": 16}],
+    "rule": "one case = one batch (size, composition pattern, positions of planted invalid members, verify mode) built from a pool of individually "
+            "checked members with mixed aggregation factors, capacities, seeds and transcript contexts, or one refusal input; non-trivial = verify_batch ran on it and "
+            "its verdict, result length and per-slot masks were compared with the expectation; distinct = distinct (group, size, pattern, invalid positions, mode)",
+    "require": {"quick": {"batches": 300, "batches_beyond_one_chunk": 100, "batches_with_invalid_member_beyond_256": 20, "refusal_cases": 300, "result_slots_checked": 20000},
+                "thorough": {"batches": 1500, "batches_beyond_one_chunk": 600, "batches_with_invalid_member_beyond_256": 150, "refusal_cases": 1500, "result_slots_checked": 200000}},
+    "assumptions": COMMON_ASSUMPTIONS + ["batch sizes are sampled at 1..6, 17, around every multiple of 256 up to 1300; not every size",
+                                         "members with different vector generators (Gi/Hi) are not constructible through the public parameter constructor and are not exercised"],
+    "level_text": "Runs verify_batch on hundreds of batches (sizes 1..1300, in particular 255/256/257/511/512/513 and beyond) composed from individually "
+                  "verified members with mixed aggregation, capacity, seeds and contexts, with 0/1/2/many invalid members planted at boundary positions "
+                  "(0, 1, 254..257, 511, 512, last, random), in all modes, and compares verdict, result length and per-slot masks with the conjunction of "
+                  "singleton verdicts of library and reference; every refusal clause (empty, length mismatches, disagreeing bit length / degree / H / G_k at "
+                  "positions incl. >= 256) must be an error.",
+    "level_note": "Held on the executed batches only. Trusted: refbp, harness pool construction.",
+}
